@@ -11,6 +11,7 @@ import (
 	"testing/synctest"
 	"time"
 
+	ubackoff "github.com/aperturerobotics/util/backoff"
 	"github.com/aperturerobotics/util/broadcast"
 	"github.com/aperturerobotics/util/routine"
 	cbackoff "github.com/cenkalti/backoff/v4"
@@ -86,6 +87,13 @@ type sys struct {
 	// deadlines of every retry timer ever armed: the clock is advanced from deadline to deadline so that the
 	// callbacks of timers that expire during one advance arrive at their gate one after the other
 	deadlines []time.Time
+	// realBO: the back-off object is built by the library from a backoff.Backoff configuration (the harness does not see
+	// its calls): the clock is advanced millisecond by millisecond, and the generator lets one millisecond pass after every
+	// bookkeeping section, so that no two retry timers are ever due at the same instant
+	realBO   bool
+	needTick bool
+	maxFail  int // > 0: at most that many error outcomes are generated in this history
+	nFail    int
 }
 
 func errOf(code uint64) error {
@@ -121,6 +129,25 @@ func newSys(w *hist.W, cfg []uint64) *sys {
 	}
 	if cfg[3] == 1 {
 		opts = append(opts, routine.WithBackoff(&scriptBO{durs: cfg[5:], s: s}))
+	}
+	if cfg[3] == 3 {
+		// routine.WithRetry with the EMPTY configuration: the package's default exponential back-off (800 ms x 1.8 ... 20 s).
+		// Its intervals are not whole milliseconds; the generator keeps the number of failures per history below 6, for
+		// which two timers due within the same millisecond fire in creation order (DESIGN.md 9.9)
+		s.realBO = true
+		s.maxFail = 5
+		opts = append(opts, routine.WithRetry(&ubackoff.Backoff{}))
+	}
+	if cfg[3] == 2 {
+		// the real thing: routine.WithRetry with a configuration of the backoff package (constant kind, cfg[5] ms, 0 = unset);
+		// the model computes the script from its model of that package
+		s.realBO = true
+		var d uint64
+		if len(cfg) > 5 {
+			d = cfg[5]
+		}
+		opts = append(opts, routine.WithRetry(&ubackoff.Backoff{BackoffKind: ubackoff.BackoffKind_BackoffKind_CONSTANT,
+			Constant: &ubackoff.Constant{Interval: uint32(d)}}))
 	}
 	if s.variant {
 		var cmp func(a, b uint64) bool
@@ -404,6 +431,7 @@ func (s *sys) exec(ev []uint64) (obs []uint64, ok bool) {
 			return nil, false
 		}
 		a.Data.(*idata).booked = true
+		s.needTick = s.realBO
 		s.c.Step(a)
 	case 17:
 		i := int(ev[1])
@@ -418,6 +446,11 @@ func (s *sys) exec(ev []uint64) (obs []uint64, ok bool) {
 		s.c.Step(a)
 	case 11:
 		target := time.Now().Add(time.Duration(ev[1]) * time.Millisecond)
+		s.needTick = false
+		for s.realBO && time.Now().Before(target) {
+			time.Sleep(time.Millisecond)
+			synctest.Wait()
+		}
 		for {
 			var next time.Time
 			now := time.Now()
@@ -556,6 +589,19 @@ func (s *sys) gen(r *rand.Rand, maxInst int) []uint64 {
 	}
 	nt := len(s.parkedTimers())
 	room := len(s.insts) < maxInst
+	if s.needTick {
+		// real back-off object: a retry timer may just have been armed; let one millisecond pass before anything else
+		return []uint64{11, 1}
+	}
+	if s.realBO {
+		// the library-built back-off objects have long intervals (>= 100 ms, defaults 800 ms / 5 s): make retries happen
+		switch y := r.IntN(12); {
+		case y < 2 && nt > 0:
+			return []uint64{12, uint64(r.IntN(nt))}
+		case y < 4:
+			return []uint64{11, []uint64{300, 700, 1000, 2500, 5000}[r.IntN(5)]}
+		}
+	}
 	for tries := 0; tries < 200; tries++ {
 		x := r.IntN(100)
 		if len(exitp) > 0 {
@@ -611,6 +657,13 @@ func (s *sys) gen(r *rand.Rand, maxInst int) []uint64 {
 			if d.ctx.Err() != nil && r.IntN(3) == 0 {
 				continue
 			}
+			if s.maxFail > 0 && o != 0 {
+				if s.nFail >= s.maxFail {
+					o = 0
+				} else {
+					s.nFail++
+				}
+			}
 			return []uint64{9, uint64(i), o}
 		case x < 72 && len(book) > 0:
 			return []uint64{10, uint64(pick(r, book))}
@@ -665,11 +718,26 @@ func (s *sys) count(ev, obs []uint64) {
 	}
 	if len(s.parkedTimers()) > 0 {
 		s.w.Count("obs.timer_callback_parked", 1)
+		if s.realBO {
+			s.w.Count("obs.real_backoff.timer_callback_parked", 1)
+		}
+	}
+	if s.realBO && ev[0] == 12 {
+		s.w.Count("ev.real_backoff.timercb", 1)
 	}
 }
 
 func randomCfg(r *rand.Rand) []uint64 {
 	cfg := []uint64{uint64(r.IntN(2)), uint64(r.IntN(3)), 1 + uint64(r.IntN(2)), uint64(r.IntN(2)), b2u(r.IntN(3) == 0)}
+	if cfg[3] == 1 && r.IntN(4) == 0 {
+		// the back-off object built by routine.WithRetry from a backoff.Backoff configuration (constant kind)
+		if r.IntN(3) == 0 {
+			cfg[3] = 3
+			return cfg
+		}
+		cfg[3] = 2
+		return append(cfg, []uint64{0, 100, 250, 700}[r.IntN(4)])
+	}
 	if cfg[3] == 1 {
 		n := 1 + r.IntN(3)
 		for i := 0; i < n; i++ {
